@@ -28,7 +28,7 @@ LEVEL = 'exploration'
 RULE = (
     '(a) all DOMs parsed from the C02 single-rule and 2-rule sheets in every spelling with <=1 site deviation, comment parsing on/off, plus the '
     'real sheets under sheets/ and cssutils/tests/sheets/; (b) all strings of length<=n over an 18-character content alphabet x quote style x '
-    '12 text positions; each DOM is serialised, reparsed, reserialised; every rule / declaration block / selector / media list / property value '
+    '15 text positions; each DOM is serialised, reparsed, reserialised; every rule / declaration block / selector / media list / property value '
     'text is set on a fresh object. Distinct by construction; non-trivial = the DOM holds at least one rule after the first parse'
 )
 ASSUMPTIONS = [
@@ -40,7 +40,9 @@ FLOORS = {'quick': {'outcomes': 500, 'evaluations': 50000}, 'thorough': {'outcom
 
 SIGMA = ['a', '1', ' ', '"', "'", '\\', '(', ')', '\n', '\t', 'é', ';', '{', '}', '/', '*', ',', '-']
 POSITIONS = ['value-string', 'url-quoted', 'url-bare', 'import-string', 'import-url', 'namespace-uri', 'attr-value', 'comment', 'class', 'id',
-             'type', 'property-name', 'font-family-string']
+             'type', 'property-name', 'font-family-string',
+             # free text next to a comment that spans lines (what follows a string on its line must stay what it is)
+             'value-string-then-comment', 'media-attr-value-then-comment']
 
 
 def bounds(tier):
@@ -158,6 +160,9 @@ def setback(res, sheet, case, sigtag):
             kind = r.typeString
             if r.type in (R.STYLE_RULE, R.PAGE_RULE) and ns and r.type == R.STYLE_RULE and any('|' in s.selectorText for s in r.selectorList):
                 # a detached rule cannot resolve prefixes: set back through (text, namespaces)
+                text, obj = one(kind, lambda: r.cssText, lambda: type(r)(), lambda o, t: setattr(o, 'cssText', (t, ns)))
+            elif r.type == R.MEDIA_RULE and ns:
+                # the same holds for a detached @media rule that contains prefixed names
                 text, obj = one(kind, lambda: r.cssText, lambda: type(r)(), lambda o, t: setattr(o, 'cssText', (t, ns)))
             elif r.type == R.NAMESPACE_RULE or r.type == R.CHARSET_RULE or r.type == R.IMPORT_RULE:
                 text, obj = one(kind, lambda: r.cssText, lambda: type(r)(), lambda o, t: setattr(o, 'cssText', t))
@@ -277,6 +282,10 @@ def content_text(pos, s, q):
         return 'a{content:%s}' % esc_string(s, q)
     if pos == 'font-family-string':
         return 'a{font-family:%s,b}' % esc_string(s, q)
+    if pos == 'value-string-then-comment':
+        return 'a{content:%s /*c\n  d\ne*/ "f";x:y}' % esc_string(s, q)
+    if pos == 'media-attr-value-then-comment':
+        return '@media print{a[b=%s] /*c\n  d*/ e{x:y}}' % esc_string(s, q)
     if pos == 'url-quoted':
         return 'a{background:url(%s)}' % esc_string(s, q)
     if pos == 'url-bare':
